@@ -13,3 +13,4 @@ import IOptProps.C16
 import IOptProps.C01
 import IOptProps.C08holder
 import IOptProps.C13
+import IOptProps.C05
